@@ -162,7 +162,32 @@ func (r *FnRun) loadField(st *State, fp *FieldPtr) Val {
 		sv.N = append(sv.N, c.Name)
 		sv.F = append(sv.F, get(c))
 	}
+	r.assumeHeaderInv(st, sv)
 	return sv
+}
+
+// assumeHeaderInv: a slice or string header read from well-typed Go memory has
+// 0 <= len (and len <= cap): the representation invariant of the type.
+func (r *FnRun) assumeHeaderInv(st *State, sv *StructVal) {
+	ln, ok := sv.Field("len")
+	if !ok {
+		return
+	}
+	lt, ok := ln.(Term)
+	if !ok || strings.Contains(lt.S, "q!") || strings.Contains(lt.S, "!q") || strings.Contains(lt.S, "a!") {
+		return
+	}
+	key := "hdrinv:" + lt.S
+	if st.ghost[key] != nil {
+		return
+	}
+	st.ghost[key] = true
+	st.assume(Le(zeroLike(lt), lt), "length of a slice/string header in memory is non-negative")
+	if cp, ok := sv.Field("cap"); ok {
+		if ct, ok := cp.(Term); ok {
+			st.assume(Le(lt, ct), "len <= cap of a slice header in memory")
+		}
+	}
 }
 
 func (r *FnRun) storeField(st *State, fp *FieldPtr, v Val, init bool) {
